@@ -169,7 +169,8 @@ impl Ledger {
         self.video.windows(2).any(|w| w[1].pts_s < w[0].pts_s)
     }
     pub fn any_cts(&self) -> bool {
-        self.video.iter().any(|v| v.pts != v.dts)
+        // (beyond 2^53 ticks the model value is the same "Huge" for both: compare what was submitted)
+        self.video.iter().any(|v| if v.pts.is_huge() || v.dts.is_huge() { v.pts_s != v.dts_s } else { v.pts != v.dts })
     }
 }
 
